@@ -466,6 +466,8 @@ class JsonCommandField(cabc.Sequence):
             raise IndexError("JsonCommandField is empty.")
         # now we know we have an int
         key = size + key if key < 0 else key  # ensure key is non-negative
+        if not 0 <= key < size:
+            raise IndexError("JsonCommandField index out of range")
         bufsize = len(self.hist.buffer)
         if size - bufsize <= key:  # key is in buffer
             return self.hist.buffer[key + bufsize - size].get(self.field, self.default)
